@@ -549,7 +549,8 @@ def _describe_failure(gen, unit, d):
         else:
             oblig_site = fname
     else:
-        oblig = '%s.%s.%s' % (unit.name, fname, (gtags[0] if gtags else kind.replace(' ', '-')))
+        # (a `[canary]` clause names the obligation even if a source comment inside the span happens to contain brackets, e.g. "[u8]")
+        oblig = '%s.%s.%s' % (unit.name, fname, ('canary' if 'canary' in gtags else gtags[0] if gtags else kind.replace(' ', '-')))
         oblig_site = fname
     return dict(obligation=oblig, tags=tags, generic_tags=gtags, props=props, kind=kind, function=fname, fn_key=fn_key,
                 site=site, rendered=d.get('rendered', '')[:3000])
